@@ -87,8 +87,17 @@ pub fn push_message(s: &mut Stream, tape: &mut Tape, r: &mut Rng, mtype: u8, seq
             let mut b = vec![0u8; n];
             r.fill(&mut b);
             // a few halfwords take boundary values (sign bit only, all ones, ...)
-            if n >= 120 && (opts.extreme_halfwords > 0 || tape.draw(3) == 2) {
-                for _ in 0..(1 + tape.draw(3) + opts.extreme_halfwords) {
+            if n >= 120 && opts.extreme_halfwords > 0 {
+                // every 16-bit field of the first 60 takes a boundary value with probability 1/5
+                let mut rr = tape.fork();
+                for h in 0..60usize {
+                    if rr.below(5) == 0 {
+                        let v = [0x8000u16, 0x8000, 0xFFFF, 0x7FFF, 0, 1][rr.below(6) as usize];
+                        b[2 * h..2 * h + 2].copy_from_slice(&v.to_be_bytes());
+                    }
+                }
+            } else if n >= 120 && tape.draw(3) == 2 {
+                for _ in 0..(1 + tape.draw(3)) {
                     let o = 2 * tape.draw(60) as usize;
                     let v = [0x8000u16, 0xFFFF, 0x7FFF, 0, 1][tape.draw(5) as usize];
                     b[o..o + 2].copy_from_slice(&v.to_be_bytes());
